@@ -217,10 +217,10 @@ def shards(tier):
 
 BOUNDS = {
     'quick': dict(requests='K = 2 in gaps (at least one kill or future().cancel()); K = 1 kill/cancel from inside a listener notification',
-                  actions=[sched.ACT_NAMES[a] for a in ACTS], positions=f'gaps 0..{NPOS}; listener notification occurrence 0..2', programs='P0..P8',
+                  actions=[sched.ACT_NAMES[a] for a in ACTS], positions=f'gaps 0..{NPOS}; listener notification occurrence 0..2', programs='P0..P10',
                   data='kill text str len <= 2 (symbolic), resume value int'),
     'thorough': dict(requests='K = 2 with gap or listener placement for each; K = 3 in gaps', actions=[sched.ACT_NAMES[a] for a in ACTS],
-                     positions=f'gaps 0..{NPOS}', programs='P0..P8', data='str len <= 2 (<= 1 for K = 3), int'),
+                     positions=f'gaps 0..{NPOS}', programs='P0..P10', data='str len <= 2 (<= 1 for K = 3), int'),
 }
 OUTSIDE = ['more than K requests', 'kill through a communicator (C16)', 'hooks that raise (C03)', 'real threads']
 RULE = ('paths over (program, K requests incl. >= 1 kill/cancel, placement, text); non-trivial when a kill() was applied to the live process')
